@@ -124,6 +124,15 @@ func itoa(i int) string {
 
 
 func init() {
+	// errmsg(err): the text err.Error() returns (compare with a string literal)
+	specFuncs["errmsg"] = func(env *Env, n *ECall) Value {
+		v, ok := env.eval(n.Args[0]).(VErr)
+		if !ok {
+			env.fail("errmsg expects an error")
+		}
+		env.e.specFns["errmsg"] = true
+		return VStr{T: UF("errmsg", BV32, v.T)}
+	}
 	// inset(s, k): membership in a ghost set of uint64
 	specFuncs["inset"] = func(env *Env, n *ECall) Value {
 		if len(n.Args) != 2 {
